@@ -528,10 +528,10 @@ def run(tier):
             '(needs a model of the recursion)',
         ])
     paths = substitute_taint(chk, prog, 'C11.R1')
-    rule_r2(chk, prog)
-    rule_r34(chk, prog, paths)
-    rule_r5(chk, prog)
-    rule_r6(chk, prog)
+    chk.guard(rule_r2, chk, prog)
+    chk.guard(rule_r34, chk, prog, paths)
+    chk.guard(rule_r5, chk, prog)
+    chk.guard(rule_r6, chk, prog)
     extra = None
     if tier == 'thorough':
         from .. import selftest
